@@ -47,7 +47,7 @@ IDEAS ALREADY TAKEN by other contributors - do NOT repeat any of these: {avoid}.
 WHAT TO PRODUCE
 1. A change to the library source (under {wt}/skfem/) that makes the property false for SOME inputs/histories/schedules, but not for ordinary use. It must need something specific to manifest: a particular input class, subset, dtype, size relation, sequence of calls on shared objects, fault, or schedule. Do NOT make a change that ordinary use or the existing tests would expose at once, and do not make a silly change (no random numbers, no 'if magic_value' special-casing, no deleting functionality). It should look like a plausible refactoring, optimisation or bug that a maintainer could commit by mistake. Keep it small (a few lines, at most two places). The broken behaviour must be reachable through the PUBLIC API of the library with legal inputs of moderate size (prefer failures that already show on meshes with fewer than a few thousand cells), and it must be a violation of THIS property as stated (not merely of some other expectation).
 2. Confirm that the existing test suite still passes with your change: run, from inside {wt}:  PYTHONPATH={wt} /venv/bin/python -m pytest -q -p no:cacheprovider -x -n 4 --timeout=900 tests --deselect tests/test_mamba.py   (takes about 1-3 minutes; the two tests in tests/test_mamba.py fail for unrelated reasons - a missing module - and are deselected). All other tests must pass. If a test fails, your change is too visible: pick a subtler one.
-3. Write a demonstration program {wt}/demo.py: a small self-contained script (using only numpy/scipy/skfem/meshio and the standard library) that exits with status 0 when the property holds and exits with a non-zero status (printing what went wrong) when it is violated. It must FAIL (non-zero) with your change and PASS (zero) without it. Verify both: run it with your change; then run `git stash`, run it again (must pass), then `git stash pop`. Run it as:  PYTHONPATH={wt} /venv/bin/python {wt}/demo.py
+3. Write a demonstration program {wt}/demo.py: a small self-contained script (using only numpy/scipy/skfem/meshio and the standard library) that exits with status 0 when the property holds and exits with a non-zero status (printing what went wrong) when it is violated. It must FAIL (non-zero) with your change and PASS (zero) without it. Verify both: run it with your change; then take the change out with `git diff -- skfem > {wt}/../$(basename {wt}).diff && git apply -R {wt}/../$(basename {wt}).diff`, run it again (must pass), then put the change back with `git apply {wt}/../$(basename {wt}).diff`. Do NOT use `git stash` (the stash is shared with other people's worktrees of the same repository). Run it as:  PYTHONPATH={wt} /venv/bin/python {wt}/demo.py
 4. Write {wt}/MUTATION.md: which file/lines you changed, why it breaks the property, and precisely what it needs in order to manifest (which inputs, which sequence of calls, which interleaving or fault), and what you ran to confirm (test suite result line, demo with/without).
 
 Leave your change as UNCOMMITTED modifications in the worktree (do not commit), with demo.py and MUTATION.md as untracked files. When you are done, reply with a short summary: the changed file(s), what it needs to manifest, and the two demo exit codes.
